@@ -469,6 +469,7 @@ pub fn c01(ctx: &mut Ctx) {
     ctx.bound("S1", "byte0 (all 256) x 13 types x 7 length-field variants x lengths 0..=56 x 6 last bytes x 3 fills; all 256 types on a reduced alphabet");
     ctx.bound("S2", ctx.tier.pick("W: k=1 over 256 values; k=2 over 12 symbols, bases <= 32 bytes", "W: k=1 over 256 values; k=2 over 26 symbols, bases <= 48 bytes"));
     ctx.bound("S3", ctx.tier.pick("SDES bodies: 1-2 words x 8 symbols, 3 words x 4 symbols", "SDES bodies: 1-2 words x 8 symbols, 3 words x 6 symbols, 4 words x 3 symbols (4 words x 4 symbols: C10 thorough)"));
+    bytes::placement_bound(ctx);
     ctx.bound("S4", "raw FCI bodies: every length 0..=40 x first byte (all) x 4 second bytes x 3 fills");
     ctx.bound("S5", "every truncation and +1..+8 extension of W, with/without length resync");
     ctx.bound("long chains", "chains of 7..1025 well-formed tiles of mixed sizes x 12 tail variants");
@@ -485,12 +486,10 @@ pub fn c01(ctx: &mut Ctx) {
         if child && sp.len > 1_000_000 {
             return;
         }
-        let get = &sp.get;
-        ctx.run_space(&sp.name, sp.len, |idx, l| {
-            let mut buf = Vec::with_capacity(64);
-            get(idx, &mut buf);
-            c01_case(a, &buf, mode, pairs, l);
-        });
+        // giants rotate the address residue, everything small enough is crossed with all eight (engine::place); the
+        // unoptimised child rotates throughout
+        let lim = if child || matches!(mode, Mode::Giant) { 0 } else { bytes::cross_limit(ctx) };
+        sp.run(ctx, &sp.name, lim, |s, l| c01_case(a, s, mode, pairs, l));
     };
     run(ctx, bytes::s1_full(), Mode::All, false);
     run(ctx, bytes::s1_all_types(), Mode::All, false);
@@ -504,7 +503,7 @@ pub fn c01(ctx: &mut Ctx) {
     // all ordered accessor pairs on the base set
     let nb = bases.len() as u64;
     let b2 = bases.clone();
-    ctx.run_space("W-all-accessor-pairs", nb, move |idx, l| c01_case(a, &b2[idx as usize], Mode::All, true, l));
+    run(ctx, ByteSpace::new("W-all-accessor-pairs", nb, move |idx, out| { out.clear(); out.extend_from_slice(&b2[idx as usize]); }), Mode::All, true);
     let a8 = vec![0x00u8, 0x01, 0x02, 0x03, 0x04, 0x08, 0x09, 0xFF];
     run(ctx, bytes::sdes_bodies_space(1, a8.clone(), vec![0, 1, 2]), Mode::SdesOnly, true);
     run(ctx, bytes::sdes_bodies_space(2, a8.clone(), vec![1]), Mode::SdesOnly, false);
@@ -528,19 +527,16 @@ pub fn c01(ctx: &mut Ctx) {
         let depth = ctx.tier.pick(3u32, 4u32);
         ctx.bound("iterator histories", format!("every iterator of every packet of the base set W and of every 1..=3-tile datagram of the tile menu: all call sequences of length <= {} over {{next, nth(0), nth(1), nth(2), nth(7), take(2).count()}} x 4 endings", depth));
         let b3 = bases.clone();
-        ctx.run_space("W-iterator-histories", nb, move |idx, l| {
+        let lim = if child { 0 } else { bytes::cross_limit(ctx) };
+        ByteSpace::new("W", nb, move |idx, out| { out.clear(); out.extend_from_slice(&b3[idx as usize]); }).run(ctx, "W-iterator-histories", lim, |s, l| {
             l.evals += 1;
-            l.sample(|| format!("iterator histories on {}", hex_short(&b3[idx as usize])));
-            super::common::all_iterator_histories(l, &b3[idx as usize], depth);
+            l.sample(|| format!("iterator histories on {}", hex_short(s)));
+            super::common::all_iterator_histories(l, s, depth);
         });
-        let sp = bytes::tile_seq_space(3);
-        let get = &sp.get;
-        ctx.run_space("tile-sequence-iterator-histories", sp.len, |idx, l| {
-            let mut buf = Vec::with_capacity(48);
-            get(idx, &mut buf);
+        bytes::tile_seq_space(3).run(ctx, "tile-sequence-iterator-histories", lim, |s, l| {
             l.evals += 1;
-            l.sample(|| format!("iterator histories on {}", hex_short(&buf)));
-            super::common::all_iterator_histories(l, &buf, depth);
+            l.sample(|| format!("iterator histories on {}", hex_short(s)));
+            super::common::all_iterator_histories(l, s, depth);
         });
     }
     ctx.require_hit("accepted by at least one entry point");
